@@ -37,11 +37,14 @@ func (c *committer) Run(_ int, batch db.Batch, _ chan<- struct{}) error {
 		zap.Int("batch_size", batch.Size()),
 	)
 
+	// The batch is done with whether or not the write succeeded: hand its slot back, or an
+	// ingestor waiting for a fresh batch blocks forever after a failed write.
+	defer c.batchSemaphore.Put()
+
 	if err := batch.Write(); err != nil {
 		return err
 	}
 
-	c.batchSemaphore.Put()
 	return nil
 }
 
